@@ -255,7 +255,6 @@ func isFreshCall(v ssa.Value) bool {
 	return false
 }
 
-
 func init() {
 	register(&Rule{ID: "AL-1", Min: 1, Run: runAL1,
 		Doc: "mutable rule objects are not shared between nodes: a constraint object read from one node (Constraint/Get) is attached to another node (AddConstraint/Set) only if its Go type has no method that writes its own fields; copying a mutable rule (required keys, types list, enum, allOf, min/max) must copy its content — sharing it lets a later change to one node (or to an added type shared by several schemas) leak into the other"})
